@@ -154,8 +154,8 @@ def k_compute(v: dict):
     """The function mapped by the pmap flavour (deterministic, small, picklable result)."""
     if _G.active:
         _before_compute(v["i"])
-    x = v["x"]
-    return {"sq": x * x, "lst": list(range(v["i"] + 2)), "s": "r" * (3 * v["i"]), "f": x / 7.0}
+    x, ver = v["x"], v.get("ver", 1)          # ver: the "function" the caller currently maps (F, F', ...)
+    return {"sq": x * x * ver, "lst": list(range(v["i"] + 1 + ver)), "s": "r" * (3 * v["i"]), "f": x / 7.0, "ver": ver}
 
 
 def k_ss_worker(model, *, rel_norm, integrator, y0):
@@ -285,12 +285,12 @@ def install() -> None:
 # --------------------------------------------------------------------------------------------
 # the run itself
 # --------------------------------------------------------------------------------------------
-def scan_model():
+def scan_model(ver: int = 1):
     from mxlpy import Model, fns
 
     m = Model()
     m.add_variable("x", 1.0)
-    m.add_parameters({"k_in": 2.0, "k": 1.0})
+    m.add_parameters({"k_in": 2.0 * ver, "k": 1.0})
     m.add_reaction("v_in", fns.constant, args=["k_in"], stoichiometry={"x": 1.0})
     m.add_reaction("v_out", fns.mass_action_1s, args=["x", "k"], stoichiometry={"x": -1.0})
     return m
@@ -304,6 +304,11 @@ def _frames(scan) -> dict:
 
 def do_run(job: dict):
     """One (cached or uncached) run of the flavour; returns a JSON-able result."""
+    return run_once(job)[1]
+
+
+def run_once(job: dict):
+    """One run; returns (the library's own return value, JSON-able projection).  job['ver'] = function/model version."""
     from mxlpy.parallel import Cache, parallelise
 
     n = job["nk"]
@@ -312,10 +317,10 @@ def do_run(job: dict):
         cache = Cache(tmp_dir=Path(job["cache_dir"]), name_fn=k_name, load_fn=k_load, save_fn=k_save)
     par = job["w"] > 0
     if job["flavour"] == "pmap":
-        inputs = [(LABELS[i], {"i": i + 1, "x": float(3 + i)}) for i in range(n)]
+        inputs = [(LABELS[i], {"i": i + 1, "x": float(3 + i), "ver": job.get("ver", 1)}) for i in range(n)]
         out = parallelise(k_compute, inputs, cache=cache, parallel=par, max_workers=job["w"] if par else None,
                           disable_tqdm=True)
-        return {"keys": [k for k, _ in out], "values": [v for _, v in out]}
+        return out, json.loads(json.dumps({"keys": [k for k, _ in out], "values": [v for _, v in out]}))
     import multiprocessing
 
     import pandas as pd
@@ -324,9 +329,47 @@ def do_run(job: dict):
 
     if par:
         multiprocessing.cpu_count = lambda: job["w"]  # the pool size scan.* reads (no public worker-count argument)
-    res = scan.steady_state(scan_model(), to_scan=pd.DataFrame({"k": SCAN_ROWS[:n]}), parallel=par, cache=cache,
-                            worker=k_ss_worker)
-    return _frames(res)
+    res = scan.steady_state(scan_model(job.get("ver", 1)), to_scan=pd.DataFrame({"k": SCAN_ROWS[:n]}), parallel=par,
+                            cache=cache, worker=k_ss_worker)
+    return res, _frames(res)
+
+
+def mutate_result(flavour: str, raw) -> None:
+    """The caller changes, in place, the objects a run returned (aliasing probe)."""
+    if flavour == "pmap":
+        for _k, v in raw:
+            v["lst"].append(-1)
+            v["sq"] = -1.0
+    else:
+        for sim in raw.raw_results:
+            for df in sim.raw_variables:
+                df.iloc[:, :] = -5.0
+            sim.raw_args.clear()
+
+
+def inproc_main(job: dict) -> dict:
+    """An in-process history without a crash: run / rerun / mutate / clear (+ changed function) ... in ONE process.
+    After every cached run the same process also runs without a cache (reference of the current function)."""
+    import shutil
+
+    ver, last, runs = 1, None, []
+    for step in job["steps"]:
+        op = step["op"]
+        if op in ("run", "rerun"):
+            _log("op", 0, op=op)
+            _G.active = True
+            last, js = run_once({**job, "cache": True, "w": step["w"], "ver": ver})
+            _G.active = False
+            _, ref = run_once({**job, "cache": False, "w": 0, "ver": ver})
+            runs.append({"op": op, "ver": ver, "w": step["w"], "out": js, "ref": ref})
+        elif op == "clear":
+            _log("op", 0, op=op)
+            shutil.rmtree(job["cache_dir"], ignore_errors=True)
+            ver += 1
+        elif op == "mutate":
+            _log("op", 0, op=op)
+            mutate_result(job["flavour"], last)
+    return {"runs": runs}
 
 
 def child_main(job: dict) -> int:
@@ -347,7 +390,7 @@ def child_main(job: dict) -> int:
     devnull = _REAL.os_open(os.devnull, os.O_WRONLY)
     os.dup2(devnull, 2)
     try:
-        out = do_run(job)
+        out = inproc_main(job) if job.get("steps") else do_run(job)
         if _G.killer == 0:      # crash after every key was handled, before the call returns to the caller
             _stop(0)
         doc = {"ok": True, "out": out}
